@@ -566,7 +566,7 @@ func main() {
 		return
 	}
 	r := gen.New(gen.Seed())
-	n := gen.Scale(150, 5000)
+	n := gen.Scale(300, 5000)
 	for i := 0; i < n; i++ {
 		history(w, r, i)
 	}
